@@ -30,6 +30,65 @@ def find_walker(m):
     return None
 
 
+class WalkSite:
+    """one way a function reaches the walker: `call` is the call instruction in the function itself (to the walker or
+    to a forwarding helper); args[i] describes the walker's i-th argument:
+       ('v', value)             a value of the function itself (parameter, constant @fn, phi, ...)
+       ('h', helper, value)     a value computed inside the forwarding helper `helper`
+    result_ok: the call's result is the walker's result or 0 (a helper may return 0 without walking)"""
+    def __init__(self, call, args, helper=None, inner=None, result_ok=True):
+        self.call, self.args, self.helper, self.inner, self.result_ok = call, args, helper, inner, result_ok
+
+
+def walker_calls(m, pf, w):
+    """every call in pf that reaches the walker, directly or through a helper that forwards its own parameters"""
+    out = []
+    for c in pf.all_insts():
+        if c.op != 'call' or not c.callee:
+            continue
+        if c.callee == w.name:
+            out.append(WalkSite(c, [('v', o) for o in c.o]))
+            continue
+        h = pf.module.fn(c.callee)
+        if h is None or h.decl:
+            h = m.pfn(c.callee)
+        if h is None or h.decl or h.name == pf.name:
+            continue
+        inner = [k for k in h.all_insts() if k.op == 'call' and k.callee == w.name]
+        if len(inner) != 1:
+            continue
+        k = inner[0]
+        args = []
+        for a in k.o:
+            a0 = strip_bitcasts(h, a) if isinstance(a, str) else a
+            if isinstance(a0, str) and a0.startswith('$') and a0[1:].isdigit() and int(a0[1:]) < len(c.o):
+                args.append(('v', c.o[int(a0[1:])]))
+            elif isinstance(a0, str) and a0.startswith('@'):
+                args.append(('v', a0))
+            else:
+                args.append(('h', h, a0))
+        # the helper's result: the walk's, or 0 where it does not walk
+        ok = True
+        for r in h.returns():
+            for lf in _leaves(h, r.o[0]) if r.o else [None]:
+                if lf != k.ref and const_int(lf) != 0:
+                    ok = False
+        out.append(WalkSite(c, args, helper=h, inner=k, result_ok=ok))
+    return out
+
+
+def _leaves(f, ref, seen=None):
+    seen = seen if seen is not None else set()
+    i = f.get(ref) if isinstance(ref, str) else None
+    if i is None or i.op not in ('phi', 'select') or ref in seen:
+        return [ref]
+    seen.add(ref)
+    out = []
+    for o in (i.o if i.op == 'phi' else i.o[1:]):
+        out += _leaves(f, o, seen)
+    return out
+
+
 def child_origin(f, ref, sel_first, sel_second):
     """'first' / 'second' if ref is the load of the slot returned by the first / second selector applied to the node"""
     i = f.get(strip_bitcasts(f, ref)) if isinstance(ref, str) else None
